@@ -227,6 +227,12 @@ def _title_check(cond):
             return a[1], b[1], "!=" in cond[1]
         if b[0] == "title" and a[0] == "str":
             return b[1], a[1], "!=" in cond[1]
+    if cond[0] == "op" and cond[1] == "||":
+        # (A || title != "S"): the branch is taken whenever the title differs
+        for side in (cond[2], cond[3]):
+            r = _title_check(side)
+            if r and r[2]:
+                return r
     if cond[0] == "un" and cond[1] == "!":
         r = _title_check(cond[2])
         if r:
